@@ -197,6 +197,25 @@ def check_c03(case, obs):
             ds = T.done_step.get(i["eid"])
             if ds is not None and (d["acked_step"] is None or ds < d["acked_step"]):
                 out.append(("C03", "C03/emit-early/plain", "emit %d completed in step %d, its consumer finished in step %s" % (i["eid"], ds, d["acked_step"])))
+    # rate_limit only spaces elements out: it is not a buffering node, so an emit through it completes only when the
+    # consumer behind it has finished that element (i-th arrival = i-th delivery)
+    if k == "rate_limit" and not T.sync:
+        for i, d in zip(T.inputs, T.deliv):
+            ds = T.done_step.get(i["eid"])
+            if ds is not None and (d["acked_step"] is None or ds < d["acked_step"]) and not d.get("failed"):
+                out.append(("C03", "C03/emit-early/rate_limit", "emit %d completed in step %d, the consumer behind rate_limit finished it in step %s" % (i["eid"], ds, d["acked_step"])))
+                break
+    # partition without key or timeout: the emit of the element that completes a partition waits for its consumer
+    if k == "partition" and not T.sync and T.sp.get("key") is None and T.sp.get("timeout") is None:
+        n = T.sp["n"]
+        for j, d in enumerate(T.deliv):
+            last = (j + 1) * n - 1
+            if last < len(T.inputs):
+                e = T.inputs[last]["eid"]
+                ds = T.done_step.get(e)
+                if ds is not None and (d["acked_step"] is None or ds < d["acked_step"]) and not d.get("failed"):
+                    out.append(("C03", "C03/emit-early/partition", "emit %d completed the partition in step %d, its consumer finished in step %s" % (e, ds, d["acked_step"])))
+                    break
     # (b) bounds
     if k == "buffer":
         n = T.sp["n"]
@@ -343,6 +362,14 @@ def check_failed(case, obs):
     awaitable failed)."""
     T = Trace(case, obs)
     out = []
+    # elements for which a user function of the node itself (key function, mapped coroutine) raised
+    for i in T.inputs:
+        if isinstance(i["val"], int) and i["val"] in (T.sp.get("userfail") or []):
+            for (r, has) in i["md"]:
+                if has and T.fired_step.get(r):
+                    out.append(("C04", "C04/callback-for-failed/%s/user-function" % T.kind,
+                                "the node's user function raised for %r but the callback of counter %d fired (step %r)"
+                                % (i["val"], r, T.fired_step[r])))
     for d in T.deliv:
         if not d.get("failed"):
             continue
@@ -352,6 +379,28 @@ def check_failed(case, obs):
                 out.append(("C04", "C04/callback-for-failed/%s" % cls,
                             "the consumer handling %r failed (step %s) but the callback of counter %d fired (step %r)"
                             % (d["val"], d["acked_step"], i, T.fired_step[i])))
+    return out
+
+
+def check_c16a(case, obs):
+    """C16 for a node whose own user function (key function) raises, directly behind an asynchronous emitter: the exception
+    reaches the emitter (the awaitable of emit fails), the failed element never shows up downstream, its callback never fires"""
+    T = Trace(case, obs)
+    out = []
+    bad = set(T.sp.get("userfail") or [])
+    for i in T.inputs:
+        if isinstance(i["val"], int) and i["val"] in bad:
+            if i["eid"] not in T.failed_step:
+                out.append(("C16", "C16/exception-swallowed/async/%s" % T.kind,
+                            "the key function raised for %r but emit %d did not fail (completed in step %s)"
+                            % (i["val"], i["eid"], T.done_step.get(i["eid"]))))
+            for (r, has) in i["md"]:
+                if has and T.fired_step.get(r):
+                    out.append(("C16", "C16/callback-for-failed/async/%s" % T.kind,
+                                "the key function raised for %r but the callback of counter %d fired (step %r)" % (i["val"], r, T.fired_step[r])))
+    for d in T.deliv:
+        if any(isinstance(x, int) and x in bad for x in flat_items(T.kind, d)):
+            out.append(("C16", "C16/failed-element-delivered/async/%s" % T.kind, "batch %r contains an element whose key function raised" % (d["val"],)))
     return out
 
 
